@@ -90,7 +90,7 @@ def run(tier, seed, driver_ok):
 
 
 def search(res, tier, seed):
-    r = run("thorough" if tier == "quick" else tier, seed + 1, False)
+    r = run("search" if tier == "quick" else "thorough", seed + 1, False)
     return r["oracle_failures"][:3]
 
 
